@@ -382,6 +382,22 @@ func init() {
 			return nil
 		}}
 	}
+	// ---- encoding/binary.LittleEndian (byte contents are not modelled) ----
+	intrinsics["(encoding/binary.littleEndian).Uint64"] = &intrinsic{lvalueRecv: true, fn: func(f *FuncCtx, st *State, call *ast.CallExpr, _ ast.Expr, _ *Term) []Term {
+		use(f, "binary.LittleEndian.Uint64(b): an arbitrary uint64 (byte contents are not modelled); panics if len(b) < 8")
+		b := f.expr(st, call.Args[0])
+		f.panicIf(st, "(< (len_"+b.Sort+" "+b.S+") 8)", f.site("binary.Uint64"))
+		r := f.havocVal(st, "u64", f.typeOf(call))
+		st.assume("(<= " + r.S + " 18446744073709551615)")
+		return []Term{r}
+	}}
+	intrinsics["(encoding/binary.littleEndian).PutUint64"] = &intrinsic{lvalueRecv: true, fn: func(f *FuncCtx, st *State, call *ast.CallExpr, _ ast.Expr, _ *Term) []Term {
+		use(f, "binary.LittleEndian.PutUint64(b, v): byte contents are not modelled; panics if len(b) < 8")
+		b := f.expr(st, call.Args[0])
+		f.expr(st, call.Args[1])
+		f.panicIf(st, "(< (len_"+b.Sort+" "+b.S+") 8)", f.site("binary.PutUint64"))
+		return nil
+	}}
 	// ---- sort.SliceStable / sort.Slice (T-SORT) ----
 	for _, name := range []string{"sort.SliceStable", "sort.Slice"} {
 		name := name
